@@ -891,6 +891,18 @@ fn gen_oe_case(rng: &mut Rng, variant: usize, thorough: bool) -> OeCase {
     cfg.fp.mint_fee_bps = *rng.pick(&[0u64, 1, 1000, 3333, 10000]);
     cfg.fp.airdrop_price = *rng.pick(&[40u128, 40, 7, if cfg.num_tokens.is_some() { 0 } else { 40 }]);
     cfg.fp.airdrop_fee_bps = *rng.pick(&[0u64, 5000, 10000]);
+    if rng.chance(1, 6) {
+        cfg.fp.denom = IBC.to_string();
+    }
+    let dn = cfg.fp.denom.clone();
+    let other = if dn == NATIVE { IBC.to_string() } else { NATIVE.to_string() };
+    let fund = |a: u128| -> Vec<(String, u128)> {
+        if a == 0 {
+            vec![]
+        } else {
+            vec![(dn.clone(), a)]
+        }
+    };
     let compat = OeWl::compatible(&v);
     cfg.wl = match rng.below(3) {
         0 => OeWl::None,
@@ -911,7 +923,7 @@ fn gen_oe_case(rng: &mut Rng, variant: usize, thorough: bool) -> OeCase {
             start_in: st,
             end_in: st + *rng.pick(&[50u64, 300]),
             price: *rng.pick(&[49u128, 50, 60]),
-            ibc: rng.chance(1, 8),
+            ibc: (cfg.fp.denom == IBC) != rng.chance(1, 8),
         });
     }
     let air = cfg.fp.airdrop_price;
@@ -938,11 +950,11 @@ fn gen_oe_case(rng: &mut Rng, variant: usize, thorough: bool) -> OeCase {
         let cur = if in_wl { cfg.wl_price } else { price };
         let pay = |rng: &mut Rng, p: u128| -> Vec<(String, u128)> {
             match rng.below(20) {
-                0 => nat(p + 1),
-                1 => nat(p.saturating_sub(1)),
-                2 => vec![(IBC.to_string(), p.max(1))],
+                0 => fund(p + 1),
+                1 => fund(p.saturating_sub(1)),
+                2 => vec![(other.clone(), p.max(1))],
                 3 => vec![(NATIVE.to_string(), p.max(1)), (IBC.to_string(), 1)],
-                _ => nat(p),
+                _ => fund(p),
             }
         };
         let who_any = *rng.pick(&[BUYERS[0], BUYERS[1], BUYERS[2], STRANGER, CREATOR]);
@@ -999,17 +1011,18 @@ fn gen_oe_case(rng: &mut Rng, variant: usize, thorough: bool) -> OeCase {
     // the end-time instant itself (when the clock has not passed it yet)
     if cfg.end_in_secs.is_some() && t < 5000 && rng.chance(2, 3) {
         ops.push(OeOp::At { secs: 5000, nanos: *rng.pick(&[-1i64, 0, 0, 1]) });
-        ops.push(OeOp::Mint { who: (*rng.pick(&buyers)).into(), funds: nat(price) });
-        ops.push(OeOp::MintTo { who: CREATOR.into(), recipient: BUYERS[0].into(), funds: nat(air) });
+        ops.push(OeOp::Mint { who: (*rng.pick(&buyers)).into(), funds: fund(price) });
+        ops.push(OeOp::MintTo { who: CREATOR.into(), recipient: BUYERS[0].into(), funds: fund(air) });
     }
     // closing probes: everything that could create a token after the end / burn / sell-out
     if cfg.end_in_secs.is_some() {
         ops.push(OeOp::At { secs: 6001, nanos: 0 });
     }
     ops.push(OeOp::BurnRemaining { who: CREATOR.into() });
-    ops.push(OeOp::Mint { who: STRANGER.into(), funds: nat(price) });
-    ops.push(OeOp::MintTo { who: CREATOR.into(), recipient: BUYERS[0].into(), funds: nat(air) });
+    ops.push(OeOp::Mint { who: STRANGER.into(), funds: fund(price) });
+    ops.push(OeOp::MintTo { who: CREATOR.into(), recipient: BUYERS[0].into(), funds: fund(air) });
     ops.push(OeOp::Purge { who: STRANGER.into() });
+    drop(fund);
     OeCase::Oe { cfg, ops }
 }
 
